@@ -32,6 +32,7 @@ import (
 	"github.com/henrylee2cn/erpc/v6/codec"
 	"github.com/henrylee2cn/erpc/v6/plugin/secure"
 	"github.com/henrylee2cn/erpc/v6/proto/pbproto/pb"
+	"github.com/henrylee2cn/goutil"
 
 	"verifharness/bed"
 	"verifharness/core"
@@ -65,6 +66,9 @@ type Cell struct {
 	// Flavour "" : fresh session with an empty swap | "swap-nonempty": both sessions carry an application
 	// entry in Session.Swap() from the start and the operations run as trigger -> probe sequences
 	Flavour string `json:"flavour,omitempty"`
+	// Plugins "" : both peers carry the plug-in | "sender-only" / "receiver-only": outside the property's premise,
+	// executed for the record only (counters, no verdicts)
+	Plugins string `json:"plugins,omitempty"`
 }
 
 var (
@@ -109,6 +113,15 @@ func cells(tierName string) []Cell {
 			}
 		}
 	}
+	// one side without the plug-in: not covered by the property statement ("when both peers use the secure
+	// plugin"); observed and counted, never judged
+	for _, p := range protoNames {
+		for _, b := range []string{"jstruct", "jbytes"} {
+			for _, pl := range []string{"sender-only", "receiver-only"} {
+				out = append(out, Cell{Idx: len(out), Class: "observe-one-sided", Proto: p, Body: b, Keys: "eq16", Dir: "a2b", Scope: "global", Plugins: pl})
+			}
+		}
+	}
 	return out
 }
 
@@ -134,8 +147,10 @@ type Op struct {
 	Enforce bool   `json:"enforce"`
 	Size    int    `json:"size"`
 	SizeCl  string `json:"size_class"`
-	Phase   string `json:"phase,omitempty"` // "" matrix order | trigger | probe (sequence pairs) | concurrent
-	After   string `json:"after,omitempty"` // for a probe: the operation that preceded it on the session
+	Shape   string `json:"shape,omitempty"`         // "" token + padding of Size bytes | nil | empty | b15 | b16 | b17 | b32 (body of exactly n plaintext bytes)
+	HErr    bool   `json:"handler_error,omitempty"` // the call handler returns an error status instead of a result
+	Phase   string `json:"phase,omitempty"`         // "" matrix order | trigger | probe (sequence pairs) | concurrent
+	After   string `json:"after,omitempty"`         // for a probe: the operation that preceded it on the session
 }
 
 type opKind struct {
@@ -214,10 +229,53 @@ func sizeClass(n int) string {
 	return "64K"
 }
 
+// shapesFor lists the special body shapes a body kind can take: no body at all, the empty value, and bodies
+// of exactly 15 / 16 / 17 / 32 plaintext bytes (around the AES block size) where the body is the byte string itself.
+func shapesFor(body string) []string {
+	switch body {
+	case "jstring", "jbytes", "pbbytes":
+		return []string{"nil", "empty", "b15", "b16", "b17", "b32"}
+	}
+	return []string{"nil", "empty"}
+}
+
 func opsFor(c Cell, r *core.Rand) []Op {
 	if c.Flavour == "swap-nonempty" {
 		return seqOps(c, r)
 	}
+	if c.Plugins != "" {
+		var ops []Op
+		for _, kind := range []string{"call", "push"} {
+			for _, m := range []string{"none", "secure", "accept-true"} {
+				for _, sh := range []string{"", "empty"} {
+					ops = append(ops, Op{N: len(ops), Kind: kind, Marker: m, Size: 40, SizeCl: "small", Shape: sh})
+				}
+			}
+		}
+		return ops
+	}
+	ops := matrixOps(c, r)
+	// body shapes: every marker combination for calls (with and without enforcement) and pushes
+	for _, sh := range shapesFor(c.Body) {
+		for _, kind := range []string{"call", "push"} {
+			for _, m := range markers {
+				for _, enf := range []bool{false, true} {
+					if kind == "push" && enf {
+						continue
+					}
+					ops = append(ops, Op{N: len(ops), Kind: kind, Marker: m, Enforce: enf, Size: 0, SizeCl: "shape", Shape: sh})
+				}
+			}
+		}
+	}
+	// calls whose handler answers with an error status
+	for _, m := range markers {
+		ops = append(ops, Op{N: len(ops), Kind: "call", Marker: m, Size: 40, SizeCl: "small", HErr: true})
+	}
+	return ops
+}
+
+func matrixOps(c Cell, r *core.Rand) []Op {
 	var ops []Op
 	add := func(size int) {
 		for _, kind := range []string{"call", "push"} {
@@ -279,9 +337,47 @@ func randAlnum(r *core.Rand, n int) string {
 
 // newToken returns a unique 32-character printable token (a process-wide counter makes it unique,
 // 26 PRNG characters make it impossible to occur by accident).
-func newToken(r *core.Rand) string {
-	n := atomic.AddUint32(&tokCounter, 1)
-	return fmt.Sprintf("%s%06x", randAlnum(r, tokLen-6), n&0xffffff)
+func newToken(r *core.Rand) string { return newTokenN(r, tokLen) }
+
+// newTokenN: a unique printable token of n >= 15 characters.
+func newTokenN(r *core.Rand, n int) string {
+	c := atomic.AddUint32(&tokCounter, 1)
+	return fmt.Sprintf("%s%06x", randAlnum(r, n-6), c&0xffffff)
+}
+
+// makeShape builds the body for a special shape: what is passed to Call/Push (or returned by the handler),
+// what the other side must end up with, and the token to look for on the wire ("" if the body has none).
+func makeShape(kind, shape string, r *core.Rand, asResult bool) (send, want interface{}, tok string) {
+	zero := func() interface{} {
+		switch kind {
+		case "jstruct":
+			return &JArg{}
+		case "jstring":
+			s := ""
+			return &s
+		case "jbytes", "pbbytes":
+			return []byte{}
+		case "pbmsg":
+			return &pb.Payload{}
+		}
+		panic(kind)
+	}
+	switch shape {
+	case "nil":
+		if asResult {
+			return zero(), zero(), "" // a handler answers with the empty value
+		}
+		return nil, zero(), ""
+	case "empty":
+		return zero(), zero(), ""
+	}
+	n := map[string]int{"b15": 15, "b16": 16, "b17": 17, "b32": 32}[shape]
+	tok = newTokenN(r, n)
+	if kind == "jstring" {
+		s := tok
+		return &s, &s, tok
+	}
+	return []byte(tok), []byte(tok), tok
 }
 
 // JArg is the struct body for the JSON codec; Raw repeats the token as []byte (base64 under JSON).
@@ -469,6 +565,9 @@ var tokensSearched, bytesSearched int64
 
 // find reports the encoding and offset at which the token occurs in data ("" if nowhere).
 func find(data []byte, tok string) (string, int) {
+	if tok == "" {
+		return "", -1
+	}
 	for _, n := range needles(tok) {
 		atomic.AddInt64(&tokensSearched, 1)
 		atomic.AddInt64(&bytesSearched, int64(len(data)))
@@ -547,9 +646,11 @@ type opRec struct {
 	mu      sync.Mutex
 	runs    int
 	gotArg  interface{}
-	gotMeta string // X-Secure / X-Accept-Secure as seen by the handler
-	pushSt  string // what Push() returned
-	sawSec  string // value of X-Secure as seen by the handler
+	gotMeta string      // X-Secure / X-Accept-Secure as seen by the handler
+	pushSt  string      // what Push() returned
+	sawSec  string      // value of X-Secure as seen by the handler
+	wantArg interface{} // what the handler must receive (differs from arg only for a nil body)
+	wantRes interface{} // what the caller must receive
 	gate    *concGate
 
 	// observer records
@@ -627,11 +728,17 @@ func (g *concGate) arrive() {
 
 var errNoRec = erpc.NewStatus(599, "c17 harness: no operation record for this request", "")
 
-func reply(ctx erpc.CallCtx, rec *opRec) {
+func reply(ctx erpc.CallCtx, rec *opRec) *erpc.Status {
 	if rec.enforce {
 		secure.EnforceSecure(ctx.Output())
 	}
+	if rec.op.HErr {
+		return erpc.NewStatus(handlerErrCode, "c17 handler refuses", "requested by the check")
+	}
+	return nil
 }
+
+const handlerErrCode int32 = 777
 
 // Call handlers (function handlers; the route names are those returned by RouteCallFunc).
 
@@ -640,7 +747,9 @@ func EchoStruct(ctx erpc.CallCtx, arg *JArg) (*JArg, *erpc.Status) {
 	if rec == nil {
 		return nil, errNoRec
 	}
-	reply(ctx, rec)
+	if st := reply(ctx, rec); st != nil {
+		return nil, st
+	}
 	return rec.res.(*JArg), nil
 }
 
@@ -649,7 +758,9 @@ func EchoString(ctx erpc.CallCtx, arg *string) (*string, *erpc.Status) {
 	if rec == nil {
 		return nil, errNoRec
 	}
-	reply(ctx, rec)
+	if st := reply(ctx, rec); st != nil {
+		return nil, st
+	}
 	return rec.res.(*string), nil
 }
 
@@ -658,7 +769,9 @@ func EchoBytes(ctx erpc.CallCtx, arg *[]byte) ([]byte, *erpc.Status) {
 	if rec == nil {
 		return nil, errNoRec
 	}
-	reply(ctx, rec)
+	if st := reply(ctx, rec); st != nil {
+		return nil, st
+	}
 	return rec.res.([]byte), nil
 }
 
@@ -667,7 +780,9 @@ func EchoPb(ctx erpc.CallCtx, arg *pb.Payload) (*pb.Payload, *erpc.Status) {
 	if rec == nil {
 		return nil, errNoRec
 	}
-	reply(ctx, rec)
+	if st := reply(ctx, rec); st != nil {
+		return nil, st
+	}
 	return rec.res.(*pb.Payload), nil
 }
 
@@ -838,10 +953,19 @@ type cellRun struct {
 	p        protos.P
 	findings []finding
 	checked  int64 // messages checked
-	stats    map[string]int64
+	// observeOnly: the cell is outside the property's premise; findings become counters
+	observeOnly bool
+	verA, verB  string // cipher versions (what the envelope of A's / B's plug-in carries)
+	stats       map[string]int64
 }
 
-func (cr *cellRun) add(f finding) { cr.findings = append(cr.findings, f) }
+func (cr *cellRun) add(f finding) {
+	if cr.observeOnly {
+		cr.stats[fmt.Sprintf("onesided/%s/%s/%s/%s", cr.c.Plugins, f.role, f.marker, f.symptom)]++
+		return
+	}
+	cr.findings = append(cr.findings, f)
+}
 
 // tag is the scenario tag appended to the marker class in fingerprints.
 func (cr *cellRun) tag(op Op) string {
@@ -851,6 +975,16 @@ func (cr *cellRun) tag(op Op) string {
 	}
 	if op.Phase == "concurrent" {
 		t += "@concurrent"
+	}
+	switch op.Shape {
+	case "":
+	case "nil", "empty":
+		t += "@empty-body"
+	default:
+		t += "@short-body"
+	}
+	if op.HErr {
+		t += "@handler-error"
 	}
 	return t
 }
@@ -926,6 +1060,14 @@ func runCell(id string, c Cell, seedv int64) {
 	// the observer comes after the secure plug-in, so it sees what is handed to the protocol
 	plA := []erpc.Plugin{secure.NewPlugin(codeA, ka), observer{}}
 	plB := []erpc.Plugin{secure.NewPlugin(codeB, kb), observer{}}
+	switch c.Plugins { // direction is a2b in these cells: A sends
+	case "sender-only":
+		plB = []erpc.Plugin{observer{}}
+	case "receiver-only":
+		plA = []erpc.Plugin{observer{}}
+	}
+	cr.observeOnly = c.Plugins != ""
+	cr.verA, cr.verB = goutil.Md5([]byte(ka)), goutil.Md5([]byte(kb))
 	var pa, pb2 erpc.Peer
 	var rt routes
 	switch {
@@ -970,11 +1112,20 @@ func runCell(id string, c Cell, seedv int64) {
 	newRec := func(op Op) *opRec {
 		rec := &opRec{id: fmt.Sprintf("%s.%d.%d", id, *batch, op.N), op: op, enforce: op.Enforce,
 			outBody: map[string][]byte{}, outCodec: map[string]byte{}, outSecure: map[string]string{}, outErr: map[string]string{}}
-		rec.argTok = newToken(r)
-		rec.arg = makeValue(c.Body, rec.argTok, op.Size, r)
-		if op.Kind == "call" {
-			rec.resTok = newToken(r)
-			rec.res = makeValue(c.Body, rec.resTok, op.Size, r)
+		if op.Shape != "" {
+			rec.arg, rec.wantArg, rec.argTok = makeShape(c.Body, op.Shape, r, false)
+			if op.Kind == "call" {
+				rec.res, rec.wantRes, rec.resTok = makeShape(c.Body, op.Shape, r, true)
+			}
+		} else {
+			rec.argTok = newToken(r)
+			rec.arg = makeValue(c.Body, rec.argTok, op.Size, r)
+			rec.wantArg = rec.arg
+			if op.Kind == "call" {
+				rec.resTok = newToken(r)
+				rec.res = makeValue(c.Body, rec.resTok, op.Size, r)
+				rec.wantRes = rec.res
+			}
 		}
 		regMu.Lock()
 		reg[rec.id] = rec
@@ -1148,6 +1299,20 @@ func runCell(id string, c Cell, seedv int64) {
 	core.Add("frames_tapped", tp.frames)
 	core.Add("bytes_tapped", tp.bytes)
 	tp.mu.Unlock()
+	if cr.observeOnly {
+		for k, v := range cr.stats {
+			if strings.HasPrefix(k, "onesided/") {
+				core.Add(k, v)
+			}
+		}
+		core.Add("onesided_messages_observed", cr.checked)
+		what := "observation only (one side without the plug-in is outside the property's premise)"
+		if abort != "" {
+			what += "; " + abort
+		}
+		core.Result(core.R{ID: id, Verdict: core.Held, What: what, Sig: "observe/" + c.Proto + "/" + c.Body + "/" + c.Plugins})
+		return
+	}
 	core.Add("evaluations", cr.checked)
 	for k, v := range cr.stats {
 		core.Add(k, v)
@@ -1216,7 +1381,13 @@ func (cr *cellRun) emit(id, sig string) {
 }
 
 func (cr *cellRun) nontrivial(role string, op Op) {
-	core.Distinct("nontrivial", fmt.Sprintf("%s/%s%s/%s/%s/%s/%s/enf=%v/%s", role, op.Marker, cr.tag(op), cr.c.Proto, cr.c.Body, cr.c.Keys, op.SizeCl, op.Enforce, cr.c.Scope))
+	if cr.observeOnly {
+		return
+	}
+	if op.Shape != "" {
+		core.Distinct("body_shapes", fmt.Sprintf("%s/%s/%s/%s/%s/%s", role, op.Shape, op.Marker, cr.c.Body, cr.c.Proto, cr.c.Keys))
+	}
+	core.Distinct("nontrivial", fmt.Sprintf("%s/%s%s/%s/%s/%s/%s/enf=%v/%s", role, op.Marker, cr.tag(op), cr.c.Proto, cr.c.Body, cr.c.Keys, op.SizeCl+op.Shape, op.Enforce, cr.c.Scope))
 	core.Distinct("marker_proto_codec", fmt.Sprintf("%s/%s/%s/%s", role, op.Marker, cr.c.Proto, codecName(cr.c.Body)))
 	if op.Phase == "probe" {
 		core.Distinct("sequence_pairs", fmt.Sprintf("%s -> %s %s/%s/%s", op.After, op.Kind, op.Marker, cr.c.Proto, codecName(cr.c.Body)))
@@ -1259,6 +1430,24 @@ func (cr *cellRun) checkRequestFrame(role string, rec *opRec, equalKeys bool) {
 	rec.mu.Lock()
 	body := rec.outBody[role]
 	rec.mu.Unlock()
+	ver := cr.verA
+	if cr.c.Dir == "b2a" {
+		ver = cr.verB
+	}
+	if hasSecure(op.Marker) && len(rec.reqFrame) > 0 {
+		// the envelope (cipher version of the sender's key) on the wire: recorded per body shape, not a verdict
+		k := "marked_requests_with_envelope"
+		if !bytes.Contains(rec.reqFrame, []byte(ver)) {
+			k = "marked_requests_WITHOUT_envelope"
+			if op.Shape != "" {
+				k += "/" + op.Shape
+			}
+		}
+		cr.stats[k]++
+	}
+	if rec.argTok == "" {
+		return // a body without content: nothing can appear in clear, nothing to look for
+	}
 	if hasSecure(op.Marker) {
 		if !equalKeys {
 			// the confidentiality clause is stated for equal keys; observed, not asserted
@@ -1380,11 +1569,11 @@ func (cr *cellRun) checkCall(rec *opRec, cmd erpc.CallCmd, equalKeys bool) {
 		cr.violate("call", op, sym, fmt.Sprintf("%s request: the handler ran %d time(s) instead of once; caller status %s", cl, runs, statusText(stat)), base())
 		return
 	}
-	if !same(rec.arg, gotArg) {
+	if !same(rec.wantArg, gotArg) {
 		w := base()
 		w["handler_arg"] = brief(gotArg)
-		w["original_arg"] = brief(rec.arg)
-		cr.violate("call", op, sym, fmt.Sprintf("%s request: the handler's argument differs from the original: got %s want %s", cl, brief(gotArg), brief(rec.arg)), w)
+		w["original_arg"] = brief(rec.wantArg)
+		cr.violate("call", op, sym, fmt.Sprintf("%s request: the handler's argument differs from the original: got %s want %s", cl, brief(gotArg), brief(rec.wantArg)), w)
 		return
 	}
 	if !marked && rec.sawSec == "true" {
@@ -1393,9 +1582,42 @@ func (cr *cellRun) checkCall(rec *opRec, cmd erpc.CallCmd, equalKeys bool) {
 	}
 	cr.stats["handler_args_verified"]++
 
+	if op.HErr {
+		// the handler answered with an error status: there is no result to restore or to hide; which status
+		// the caller sees is C04's business - recorded only
+		cr.checked++
+		cr.nontrivial("reply", op)
+		switch {
+		case stat.Code() == handlerErrCode:
+			cr.stats["handler_error_status_delivered"]++
+		case stat.OK():
+			cr.stats["handler_error_status_seen_as_OK"]++
+		default:
+			cr.stats["handler_error_status_other"]++
+		}
+		if enc, _ := find(rec.repFrame, rec.resTok); enc != "" {
+			cr.stats["handler_error_reply_carries_result_token"]++
+		}
+		return
+	}
+
 	// ---- the reply
 	cr.checked++
 	cr.nontrivial("reply", op)
+	if replySecure && len(rec.repFrame) > 0 {
+		ver := cr.verB // the replying side's cipher version
+		if cr.c.Dir == "b2a" {
+			ver = cr.verA
+		}
+		k := "marked_replies_with_envelope"
+		if !bytes.Contains(rec.repFrame, []byte(ver)) {
+			k = "marked_replies_WITHOUT_envelope"
+			if op.Shape != "" {
+				k += "/" + op.Shape
+			}
+		}
+		cr.stats[k]++
+	}
 	encR, offR := find(rec.repFrame, rec.resTok)
 	switch expect {
 	case "optout":
@@ -1463,15 +1685,15 @@ func (cr *cellRun) checkCall(rec *opRec, cmd erpc.CallCmd, equalKeys bool) {
 		cr.violate("reply", op, rsym, fmt.Sprintf("%s reply: the handler returned a result but the caller got status %s", rcl, statusText(stat)), base())
 		return
 	}
-	if !same(rec.res, res) {
+	if !same(rec.wantRes, res) {
 		w := base()
 		w["caller_result"] = brief(res)
-		w["original_result"] = brief(rec.res)
-		cr.violate("reply", op, rsym, fmt.Sprintf("%s reply: the caller's result differs from what the handler returned: got %s want %s", rcl, brief(res), brief(rec.res)), w)
+		w["original_result"] = brief(rec.wantRes)
+		cr.violate("reply", op, rsym, fmt.Sprintf("%s reply: the caller's result differs from what the handler returned: got %s want %s", rcl, brief(res), brief(rec.wantRes)), w)
 		return
 	}
 	cr.stats["caller_results_verified"]++
-	if !replyEncrypted && encR == "" && len(rec.repFrame) > 0 {
+	if !replyEncrypted && encR == "" && len(rec.repFrame) > 0 && rec.resTok != "" {
 		// unmarked reply without the plaintext token on the wire
 		if e2, _ := find(replyBody, rec.resTok); e2 != "" {
 			cr.unsure("reply", op, fmt.Sprintf("monitor self-check failed: the reply body handed to the protocol contains the token (%s) but the tapped frame does not", e2), base())
@@ -1493,6 +1715,9 @@ type concRound struct {
 }
 
 func concRounds(c Cell) []concRound {
+	if c.Plugins != "" {
+		return nil
+	}
 	base := []concRound{{2, []string{"secure"}}, {8, []string{"secure"}}, {2, []string{"secure+accept-true"}},
 		{8, []string{"secure", "secure+accept-true"}}, {8, []string{"secure", "none", "accept-true", "secure+accept-false"}}}
 	if c.Reps == 0 {
@@ -1653,11 +1878,11 @@ func (cr *cellRun) checkPushDelivery(rec *opRec, equalKeys bool) {
 		cr.violate("push", op, sym, fmt.Sprintf("%s push: the handler ran %d time(s) instead of once (Push returned %s)", cl, runs, pushStat), base())
 		return
 	}
-	if !same(rec.arg, gotArg) {
+	if !same(rec.wantArg, gotArg) {
 		w := base()
 		w["handler_arg"] = brief(gotArg)
-		w["original_arg"] = brief(rec.arg)
-		cr.violate("push", op, sym, fmt.Sprintf("%s push: the handler's argument differs from the original: got %s want %s", cl, brief(gotArg), brief(rec.arg)), w)
+		w["original_arg"] = brief(rec.wantArg)
+		cr.violate("push", op, sym, fmt.Sprintf("%s push: the handler's argument differs from the original: got %s want %s", cl, brief(gotArg), brief(rec.wantArg)), w)
 		return
 	}
 	if !marked && rec.sawSec == "true" {
